@@ -181,7 +181,7 @@ class C11(Check):
                 return None
             path, sub = d.choice(enums)
             if kind == "bad-symbol":
-                bad = d.choice(["1a", "a-b", "", 5, "a b", "é", "a.b", None])
+                bad = d.choice(["A\n", "1a", "a-b", "", 5, "a b", "é", "a.b", None, "\nA", "A\r", "A ", " A", "A\n\n", "A\x00", "a$", "Ａ"])
                 sub["symbols"].insert(d.i(len(sub["symbols"]) + 1), bad)
             elif kind == "dup-symbol":
                 sub["symbols"].append(d.choice(sub["symbols"]))
